@@ -182,8 +182,9 @@ def run(ctx):
             events += evs
         # the fresh location is spelled in different ways (the spelling of a path is not an input either): directories that do
         # not exist yet below directories that do not exist yet, a trailing slash; for single files a bare relative name, ./name,
-        # a name with a blank and a non-ASCII letter
-        shape = hi % 4
+        # a name with a blank and a non-ASCII letter, names containing
+        # the result files' names or characters special to templates and patterns
+        shape = hi % 6
         fresh_real, fresh_arg = fresh, None
         if h[-1] in D:
             if shape == 1:
@@ -193,6 +194,10 @@ def run(ctx):
             elif shape == 3:
                 fresh_real = os.path.join(fresh, "one more")
                 fresh_arg = os.path.relpath(fresh_real, ctx.rundir) + "/"
+            elif shape == 4:
+                fresh_real = fresh + "_kmer_counts_k7"        # the names of the result files occur in the path itself
+            elif shape == 5:
+                fresh_real = fresh + "_{a} }{:x"              # characters that mean something to formatting templates
         else:
             if shape == 1:
                 fresh_arg = os.path.basename(fresh)
@@ -201,13 +206,18 @@ def run(ctx):
             elif shape == 3:
                 fresh_real = fresh + " \u00fc x"
                 fresh_arg = os.path.basename(fresh_real)
+            elif shape == 4:
+                fresh_real = fresh + "_{}%s[1]*.vectors"
         rc, _ = execute(h[-1], fresh_real, False, fresh_arg)
         for name, (path, nz) in results(h[-1], shared).items():
             fpath = path.replace(shared, fresh_real)
             events.append({"ev": "eq", "what": "history %s: %s (fresh location spelled in way %d)" % ("+".join(h), name, shape),
                            "a": dig(path, nz), "b": dig(fpath, nz)})
         if fresh_real != fresh and not fresh_real.startswith(fresh + os.sep) and os.path.exists(fresh_real):
-            os.remove(fresh_real)
+            if os.path.isdir(fresh_real):
+                shutil.rmtree(fresh_real)
+            else:
+                os.remove(fresh_real)
         for p in (shared, fresh):
             if os.path.isdir(p):
                 shutil.rmtree(p)
